@@ -45,6 +45,9 @@ def gen(rng, tier, no, wide=False):
     force = {}
     if mode != "int":
         force["offset"] = rng.choice([0, 7, 1000, 10**6])
+    if rng.random() < 0.05:
+        # a job with more ranks than the parser's memory-profiling threshold (8), small traces
+        force.update({"nranks": rng.choice([9, 10]), "top_ops": 1, "max_depth": 2, "nsteps": rng.choice([0, 1])})
     case = G.gen_case(rng, **force)
     if mode != "int":
         _frac_mode(rng, case, mode)
